@@ -8,7 +8,11 @@ pub mod c04;
 pub mod c04gen;
 pub mod c05;
 pub mod c07;
+pub mod c08;
+pub mod c08model;
 pub mod c09;
+pub mod c10;
+pub mod c10gen;
 pub mod c11;
 pub mod c12;
 pub mod c13;
@@ -17,12 +21,15 @@ pub mod c15;
 pub mod c15gen;
 pub mod c15js;
 pub mod c16;
+pub mod c17;
 pub mod c18;
+pub mod c19;
+pub mod c19gen;
 pub mod c20;
 pub mod numref;
 
 pub fn all() -> Vec<&'static dyn Property> {
-    vec![&c01::C01, &c02::C02, &c03::C03, &c04::C04, &c05::C05, &c07::C07, &c09::C09, &c11::C11, &c12::C12, &c13::C13, &c14::C14, &c15::C15, &c16::C16, &c18::C18, &c20::C20]
+    vec![&c01::C01, &c02::C02, &c03::C03, &c04::C04, &c05::C05, &c07::C07, &c08::C08, &c09::C09, &c10::C10, &c11::C11, &c12::C12, &c13::C13, &c14::C14, &c15::C15, &c16::C16, &c17::C17, &c18::C18, &c19::C19, &c20::C20]
 }
 
 pub fn lookup(id: &str) -> Option<&'static dyn Property> {
